@@ -348,8 +348,11 @@ DoSnap(s, e) ==
 DoTickLocked(s, e) == [Owed(s, e.p) EXCEPT !.lastTick = e.t, !.stalled = TRUE, !.heldAcc = 0]
 
 DoHang(s, e) ==
-  LET prop == IF e.op = "wait" THEN "C20" ELSE "C10" IN
-  [V(s, prop, "call_did_not_return_" \o e.op) EXCEPT !.hangs = s.hangs + 1]
+  \* a Wait that never returns breaks C20; any call (Wait included) that hangs around Close breaks C10
+  LET k == "call_did_not_return_" \o e.op
+      s1 == IF e.op = "wait" THEN V(s, "C20", k) ELSE V(s, "C10", k)
+      s2 == IF e.op = "wait" /\ s.closed THEN V(s1, "C10", k) ELSE s1
+  IN [s2 EXCEPT !.hangs = s.hangs + 1]
 
 DoEnd(s, e) == [s EXCEPT !.stuck = s.stuck + e.stuck, !.skipped = s.skipped + e.skipped]
 
